@@ -54,7 +54,7 @@ impl TraitHandler for PartialOrdEnumHandler {
                     Fields::Unit => {
                         arms_token_stream.extend(quote! {
                             Self::#variant_ident => {
-                                return Some(::core::cmp::Ordering::Equal);
+                                return ::core::option::Option::Some(::core::cmp::Ordering::Equal);
                             }
                         });
                     },
@@ -120,10 +120,10 @@ impl TraitHandler for PartialOrdEnumHandler {
 
                             block_token_stream.extend(quote! {
                                 match #partial_cmp(#field_name_var_self, #field_name_var_other) {
-                                    Some(::core::cmp::Ordering::Equal) => (),
-                                    Some(::core::cmp::Ordering::Greater) => return Some(::core::cmp::Ordering::Greater),
-                                    Some(::core::cmp::Ordering::Less) => return Some(::core::cmp::Ordering::Less),
-                                    None => return None,
+                                    ::core::option::Option::Some(::core::cmp::Ordering::Equal) => (),
+                                    ::core::option::Option::Some(::core::cmp::Ordering::Greater) => return ::core::option::Option::Some(::core::cmp::Ordering::Greater),
+                                    ::core::option::Option::Some(::core::cmp::Ordering::Less) => return ::core::option::Option::Some(::core::cmp::Ordering::Less),
+                                    ::core::option::Option::None => return ::core::option::Option::None,
                                 }
                             });
                         }
@@ -194,10 +194,10 @@ impl TraitHandler for PartialOrdEnumHandler {
 
                             block_token_stream.extend(quote! {
                                 match #partial_cmp(#field_name, #field_name2) {
-                                    Some(::core::cmp::Ordering::Equal) => (),
-                                    Some(::core::cmp::Ordering::Greater) => return Some(::core::cmp::Ordering::Greater),
-                                    Some(::core::cmp::Ordering::Less) => return Some(::core::cmp::Ordering::Less),
-                                    None => return None,
+                                    ::core::option::Option::Some(::core::cmp::Ordering::Equal) => (),
+                                    ::core::option::Option::Some(::core::cmp::Ordering::Greater) => return ::core::option::Option::Some(::core::cmp::Ordering::Greater),
+                                    ::core::option::Option::Some(::core::cmp::Ordering::Less) => return ::core::option::Option::Some(::core::cmp::Ordering::Less),
+                                    ::core::option::Option::None => return ::core::option::Option::None,
                                 }
                             });
                         }
@@ -215,7 +215,7 @@ impl TraitHandler for PartialOrdEnumHandler {
         }
 
         if arms_token_stream.is_empty() {
-            partial_cmp_token_stream.extend(quote!(Some(::core::cmp::Ordering::Equal)));
+            partial_cmp_token_stream.extend(quote!(::core::option::Option::Some(::core::cmp::Ordering::Equal)));
         } else {
             let discriminant_cmp = quote! {
                 <::core::primitive::#discriminant_type as ::core::cmp::Ord>::cmp(
@@ -227,9 +227,9 @@ impl TraitHandler for PartialOrdEnumHandler {
             partial_cmp_token_stream.extend(if all_unit {
                 quote! {
                     match #discriminant_cmp {
-                        ::core::cmp::Ordering::Equal => Some(::core::cmp::Ordering::Equal),
-                        ::core::cmp::Ordering::Greater => Some(::core::cmp::Ordering::Greater),
-                        ::core::cmp::Ordering::Less => Some(::core::cmp::Ordering::Less),
+                        ::core::cmp::Ordering::Equal => ::core::option::Option::Some(::core::cmp::Ordering::Equal),
+                        ::core::cmp::Ordering::Greater => ::core::option::Option::Some(::core::cmp::Ordering::Greater),
+                        ::core::cmp::Ordering::Less => ::core::option::Option::Some(::core::cmp::Ordering::Less),
                     }
                 }
             } else {
@@ -240,10 +240,10 @@ impl TraitHandler for PartialOrdEnumHandler {
                                 #arms_token_stream
                             }
 
-                            Some(::core::cmp::Ordering::Equal)
+                            ::core::option::Option::Some(::core::cmp::Ordering::Equal)
                         },
-                        ::core::cmp::Ordering::Greater => Some(::core::cmp::Ordering::Greater),
-                        ::core::cmp::Ordering::Less => Some(::core::cmp::Ordering::Less),
+                        ::core::cmp::Ordering::Greater => ::core::option::Option::Some(::core::cmp::Ordering::Greater),
+                        ::core::cmp::Ordering::Less => ::core::option::Option::Some(::core::cmp::Ordering::Less),
                     }
                 }
             });
@@ -270,7 +270,7 @@ impl TraitHandler for PartialOrdEnumHandler {
         token_stream.extend(quote! {
             impl #impl_generics ::core::cmp::PartialOrd for #ident #ty_generics #where_clause {
                 #[inline]
-                fn partial_cmp(&self, other: &Self) -> Option<::core::cmp::Ordering> {
+                fn partial_cmp(&self, other: &Self) -> ::core::option::Option<::core::cmp::Ordering> {
                     #partial_cmp_token_stream
                 }
             }
